@@ -19,18 +19,29 @@ def band_pattern(f, sym):
     if not mul:
         return None
     band = False
+    scratch = [c for c in f.calls() if c.name == SCRATCH]
+    whole = None
+    if scratch:
+        a = [sym.operand(x) for x in scratch[0].args]
+        if len(a) > 2 and a[1][0] == "call" and a[1][1] == "width" and a[1][2]:
+            whole = a[1][2][0]
     for c in mul:
-        for a in c.args[1:3]:
-            s = fmt(sym.operand(a, (c.bb, "term")))
-            if re.search(r"from_ref|from_mut_ref|split_by_height|TypedCropped|::new@", s):
-                band = True
+        src = sym.operand(c.args[1], (c.bb, "term"))
+        if whole is not None and src != whole:
+            band = True
     if not band:
         return None
     txt = ""
     for i, l in enumerate(f.locals):
         for (bb, j, rv, w) in f.defs().get(i, []):
             txt += " " + fmt(sym.rvalue(rv, bb, (bb, j)))
-    margins = re.findall(r"ceil\([^()]*(?:\([^()]*\))*[^()]*\)", txt)
+    margins = []
+    for mm in re.finditer(r"ceil(@bb\d+)?\(", txt):
+        depth, i = 1, mm.end()
+        while i < len(txt) and depth:
+            depth += {"(": 1, ")": -1}.get(txt[i], 0)
+            i += 1
+        margins.append(txt[mm.end():i])
     sup = [m for m in margins if "get_filter_func" in m or "support" in m]
     if sup and not any(("Div" in m and "height" in m) or "scale" in m for m in sup):
         return "unscaled"
